@@ -25,7 +25,8 @@ CLAIMED = {
         "Seeded search over histories of connect/disconnect/emit with scripted re-entrant handlers and scheduled "
         "garbage-collection points (last-reference drops and gc.collect() inside emits and inside connect() itself), weak arguments and "
         "senders that are alive but falsy, sender classes up to three levels deep, checked per emit interval "
-        "against a registry model with must/may/never-call sets, argument order, return value and weakref liveness. "
+        "against a registry model with must/may/never-call sets, argument order, return value and weakref liveness; one history in ten drives the bundled "
+        "emitters (CheckBox, RadioButton groups, Button, list walkers) through their mutators, keys and mouse presses against the documented emission contract. "
         "Sampling, not proof: a clean batch is evidence that no interleaving of the sampled shapes breaks the property.",
         "Trusts CPython refcount/GC semantics with gc disabled during a run; handlers never raise; liveness of weak "
         "arguments is observed by polling at handler and operation boundaries.",
@@ -59,7 +60,7 @@ CLAIMED["C05"] = (
     "short reads, SIGWINCH between fragments, timer/arrival ties both ways) on all six event loops and the synchronous "
     "get_input path; the real Screen reads a fake tty on a virtual clock. Oracles: no exception, byte accounting, "
     "fragmentation invariance against whole delivery of each actually-flushed group, an implementation-independent token "
-    "table (key names, X10/SGR mouse, CPR, UTF-8, double-byte, truncated UTF-8 reported byte by byte), bounded flush. Exhaustive per sampled stream over "
+    "table (323 key sequences with their documented names generated from the terminals' conventions rather than read from escape.py, X10/SGR mouse, CPR, UTF-8, double-byte, truncated UTF-8 reported byte by byte), bounded flush. Exhaustive per sampled stream over "
     "single-cut schedules; streams themselves are sampled.",
     "Line discipline not modelled; the invariance reference is urwid's own decoder on whole groups (metamorphic), paired "
     "with the independent token table; EAGAIN/EOF on the tty not injected.",
@@ -71,16 +72,16 @@ CLAIMED["C12"] = (
     "session",
     "fault_enumeration",
     "The whole stack runs real (MainLoop, posix raw Screen, six event loops plus the screen-without-external-loop path, "
-    "widgets, a PopUpLauncher, a second page the application switches to from an input handler, a widget that passes on a "
-    "different key) on a fake tty (output stream unbuffered or block-buffered) / virtual clock with RefTerm as the terminal. Each sampled session is run fault-free, "
+    "widgets, a PopUpLauncher, a second page and an unselectable splash page the application switches to from an input handler, a widget that passes on a "
+    "different key, timers that change the tty's signal keys and toggle mouse tracking, ctrl-Z / fg with the terminal checked while the process is stopped) on a fake tty (output stream unbuffered or block-buffered) / virtual clock with RefTerm as the terminal. Each sampled session is run fault-free, "
     "the invocations of every callback category are counted, and the session is re-run for every invocation index x "
     "{ExitMainLoop, ValueError, private exception, KeyboardInterrupt} (crash-point enumeration; capped per session in the quick tier). Checked: "
     "filter->topmost widget (the pop-up or the new page once an earlier event - also of the same batch - has opened / installed it)"
     "->unhandled order with the key the widget returned, raw-byte arrival order, screen equals a fresh render whenever the loop really waits, "
     "exit/propagation of the injected object, and full restoration (buffer, cursor, mouse/paste/focus modes, SGR, charset, "
-    "termios list, SIGWINCH/SIGTSTP/SIGCONT handlers). Exhaustive over crash points of a sampled session; sessions are sampled.",
-    "Trusts RefTerm as a model of the user's terminal and the fake termios list (real tty.cfmakecbreak applied); the suspend cycle "
-    "(SIGTSTP/SIGCONT) is not simulated; callbacks already dequeued when an exception is raised are unconstrained.",
+    "termios list, SIGWINCH/SIGTSTP/SIGCONT handlers), also while suspended; a window change or resume is followed by a size query and a redraw within one simulated second. Exhaustive over crash points of a sampled session; sessions are sampled.",
+    "Trusts RefTerm as a model of the user's terminal and the fake termios list (real tty.cfmakecbreak applied); a stopped process is "
+    "modelled as: restoration check, job notice on the terminal, SIGCONT (no time passes); callbacks already dequeued when an exception is raised are unconstrained.",
     "deterministic simulation: crash-point enumeration (exception at every callback invocation) over seeded full-stack sessions",
     "DESIGN.md section 5, C12",
 )
@@ -93,7 +94,8 @@ CLAIMED["C04"] = (
     "encodings; back_color_erase on/off) on a fake tty, interleaved with clear(), set_terminal_properties and SIGWINCH delivered at "
     "scheduled points including inside the k-th write() of a frame. RefTerm, an independent VT100/xterm model, interprets every "
     "byte; after every frame of the right size every cell (text, resolved attributes, charset), the cursor and the scroll counter "
-    "are compared, with attribute expectations computed independently from the palette through AttrSpec's public properties. The "
+    "are compared, with attribute expectations computed from the palette by a model of the colour notation written independently of urwid.display.common "
+    "(AttrSpec's public properties only where the notation leaves a choice). The same canvas object drawn again after a window was shrunk and restored must be repainted. The "
     "HTML back-end is checked on the same canvases. Sampling, not proof.",
     "Trusts RefTerm (hand-written from the DEC/xterm documents; no independent emulator is available offline) and its xterm-like "
     "resize behaviour; blank cells compared by effective background and underline only; one known finding (C0 control characters "
